@@ -50,6 +50,9 @@ type Case struct {
 	Workers  int           `json:"workers"`
 	Handlers []HandlerSpec `json:"handlers"`
 	Reqs     []ReqSpec     `json:"reqs"`
+	// Noise is the number of goroutines that keep calling Service.Resource on the
+	// batch's resource names while a concurrent batch is served (RunConcurrent only).
+	Noise int `json:"noise,omitempty"`
 }
 
 func (c Case) String() string {
@@ -337,6 +340,30 @@ func RunConcurrent(c *Case) *Result {
 		return out
 	}
 	obs := make([]Obs, len(c.Reqs))
+	stopNoise := make(chan struct{})
+	var noiseWG sync.WaitGroup
+	if c.Noise > 0 {
+		rids := []string{c.Name + ".a.b.c.d.e.f.g", c.Name + ".x", c.Name + ".item.1.sub"}
+		for _, rq := range c.Reqs {
+			if _, rn, _, ok := svc.SplitSubject(rq.Subject); ok {
+				rids = append(rids, rn)
+			}
+		}
+		for g := 0; g < c.Noise; g++ {
+			noiseWG.Add(1)
+			go func(g int) {
+				defer noiseWG.Done()
+				for k := g; ; k++ {
+					select {
+					case <-stopNoise:
+						return
+					default:
+					}
+					_, _ = s.Resource(rids[k%len(rids)])
+				}
+			}(g)
+		}
+	}
 	for i, rq := range c.Reqs {
 		reply, n := r.Send(rq.Subject, []byte(rq.Payload))
 		obs[i] = Obs{Reply: reply, Delivered: n}
@@ -349,6 +376,8 @@ func RunConcurrent(c *Case) *Result {
 			}
 		}
 	}
+	close(stopNoise)
+	noiseWG.Wait()
 	if out.WaitErr == nil {
 		reply, n := r.Send("get."+c.Name+".verifprobe", nil)
 		if n > 0 && r.WaitDone(reply, 1) == nil {
@@ -546,8 +575,12 @@ func GenHandlers() *rapid.Generator[[]HandlerSpec] {
 			h.New = rapid.IntRange(0, 3).Draw(t, "new") == 0
 			h.Auths = rapid.SampledFrom([][]string{nil, {"login"}, {"*"}, {"login", "*"}}).Draw(t, "auths")
 			h.ValueMode = rapid.SampledFrom([]string{"ok", "ok", "error", "panic", "none"}).Draw(t, "vmode")
-			if rapid.IntRange(0, 3).Draw(t, "grp") == 0 {
+			switch rapid.IntRange(0, 7).Draw(t, "grp") {
+			case 0, 1:
 				h.Group = "shared"
+			case 2:
+				// a group that is spelled like another resource's name (its default group)
+				h.Group = rapid.SampledFrom([]string{"svc.model", "svc.get", "svc.item.fixed", "svc.item.1", "svc.x.new", "svc.item.1.sub"}).Draw(t, "namegroup")
 			}
 			if !h.Access && !h.Get && len(h.Calls) == 0 && !h.New && len(h.Auths) == 0 {
 				h.Get = true
